@@ -97,9 +97,10 @@ class Server(fakenet.BaseServer):
 
 
 class Run(object):
-    def __init__(self, exchanges, warc=False, dedup=()):
+    def __init__(self, exchanges, warc=False, dedup=(), ignore_length=False):
         self.exchanges = exchanges
         self.warc = warc
+        self.ignore_length = bool(ignore_length)     # --ignore-length: Content-Length is not a delimiter
         self.dedup = sorted(set(dedup))      # exchanges the URL table declares "seen before with this payload"
         self.ev = []
         self.x = 0
@@ -175,7 +176,12 @@ class Run(object):
         net = self.net
         pool = ConnectionPool(resolver=net.resolver(), connection_factory=net.connection_factory,
                               ssl_connection_factory=net.connection_factory)
-        client = Client(connection_pool=pool)
+        if self.ignore_length:
+            import functools
+            from wpull.protocol.http.stream import Stream
+            client = Client(connection_pool=pool, stream_factory=functools.partial(Stream, ignore_length=True, keep_alive=True))
+        else:
+            client = Client(connection_pool=pool)
         recorder = None
         if self.warc:
             from wpull.warc.recorder import WARCRecorder, WARCRecorderParams
@@ -276,7 +282,11 @@ def mon_trace(run, prop):
             if f in e:
                 e[f] = list(e[f])
         ev.append(e)
-    return {'prop': prop, 'dedup': list(getattr(run, 'dedup', [])), 'msgs': [M.to_json_msg(ex['cm']) for ex in run.exchanges],
+    msgs = [M.to_json_msg(ex['cm']) for ex in run.exchanges]
+    if getattr(run, 'ignore_length', False):
+        # the reference for --ignore-length: the same message read as if it carried no Content-Length at all
+        msgs = [dict(m, hascl=False, clok=False) for m in msgs]
+    return {'prop': prop, 'dedup': list(getattr(run, 'dedup', [])), 'msgs': msgs,
             'urls': [url_of(x + 1) for x in range(len(run.exchanges))], 'ev': ev}
 
 
